@@ -270,6 +270,15 @@ add("C09", "open", "RecursionError-while-parsing:expression-nested-or-chained-15
     "('{% if (((...a...))) %}', '{{ a[b[b[...]]] }}') exhaust the interpreter's stack; from_string re-labels the RecursionError as LiquidError('unexpected liquid parsing error')",
     [{"kind": "parse", "source": "{{ a" + "[b" * 400 + "]" * 400 + " }}", "mode": "strict"}, {"kind": "parse", "source": "{% if " + "(" * 400 + "a" + ")" * 400 + " %}x{% endif %}", "mode": "lax"}])
 
+# ----------------------------------------------------------------------------- C02 fixed in round 3 (found after widening the hostile pools)
+add("C02", "fixed", "escape:OverflowError@builtin/filters/misc.py:_date", "date of a digit string / integer beyond the platform's timestamp range, or of a string dateutil overflows on ('-62135596801'), let OverflowError / ValueError escape",
+    [c02("{{ l | date: '%Y' }}", {"l": "9" * 400}), c02("{{ l | date: '%Y' }}", {"l": 253402300800}), c02("{{ '-62135596801' | date: false }}"), c02("{{ l | date: '%Y' }}", {"l": "-9999999999999999999999999"})], "528ecdc")
+add("C02", "fixed", "escape:ValueError@builtin/filters/misc.py:_date", "date of a timestamp in year 10000 raised ValueError (year out of range)", [c02("{{ l | date: '%Y' }}", {"l": 253402300800})], "528ecdc")
+add("C02", "fixed", "escape:InvalidOperation@builtin/filters/array.py:sum_", "sum of Infinity and -Infinity raised decimal.InvalidOperation", [c02("{{ l | sum }}", {"l": [inf, -inf]}), c02("{{ l | sum: 'k' }}", {"l": [{"k": inf}, {"k": -inf}]})], "6b5c0aa")
+add("C02", "fixed", "escape:AssertionError@utils/html.py:strip_tags", "strip_html of a malformed marked section ('<![x]>') raised AssertionError from html.parser", [c02("{{ l | strip_html }}", {"l": "<![x]>"}), c02("{{ l | strip_html }}", {"l": "a<![if x]>b"})], "7b779a1")
+add("C02", "fixed", "escape:NameError@extra/filters/translate.py:BaseTranslateFilter.format_message", "(introduced and repaired in this round) fix f54087a used TranslationValueError without importing it; C02 caught it on the next run",
+    [c02("{{ '50%' | t }}")], "c36566a")
+
 if __name__ == "__main__":
     # further entries are appended by tools/mkfindings.py from triaged replay files and kept in findings_extra.json
     extra_path = os.path.join(VERIF, "tools", "findings_extra.json")
